@@ -7,7 +7,14 @@ This module is the correspondence side and the failing-input search:
  1. exhaustive single-fault enumeration on the real code (harness/fi_scen.c + faultinj.c, link-time
     --wrap of malloc/calloc/realloc/posix_memalign/aligned_alloc/free/mmap/munmap/pthread_create/
     pthread_join/pthread_{mutex,cond,barrier}_{init,destroy}): every scenario is run once to count the N
-    acquisitions the routine makes, then once per k = 1..N in a fresh process with the k-th one failing;
+    acquisitions the routine makes, then once per k = 1..N in a fresh process with the k-th one failing.
+    Scenarios = hand-written ones + the generated cross product (fi_scen.c gen_scens) of every fallible
+    creation / association path with every configuration dimension that selects another ladder branch
+    (thread attributes, built-in / ABT_pool_user_def / legacy ABT_pool_def pools, the caller's or another
+    stream, scheduler kinds).  Allocations made inside user callbacks pass the same gate, so the user
+    create_unit allocation and the runtime's unit-map allocation fail separately; the check verifies that
+    every scenario over a user-defined pool reached both.  What the armed thread frees inside the call is
+    quarantined, so a second free is recognised with certainty;
  2. sequence tie: the library is also built with -finstrument-functions; for every activation of a
     translated routine inside a scenario run the sequence of its direct non-pure callees must be the
     callee sequence of one execution of the generated program (`driver ledger paths`);
@@ -29,6 +36,21 @@ ASSUMPTIONS = [
     "observed callee sequence, not which valuation produced it",
     "fault injection covers the primitives the library reaches through the linker (glibc-internal allocations inside "
     "pthread_create etc. are part of that primitive)",
+    "emptied unit->thread map entries that a failed call leaves in the runtime's hash table are a cache (re-used, freed at "
+    "ABT_finalize, checked: nothing is live after finalize); the harness recognises them through a mirror of the private "
+    "struct unit_to_thread of src/unit.c; a NON-empty new entry counts as a dangling mapping",
+    "an injected failure may end in success only below ABTU_alloc_largepage / ABTU_is_supported_largepage_type (next "
+    "allocation method), ABTI_thread_handle_request_migrate (pending migration retried at the next scheduling point) and "
+    "ABT_thread_migrate (next stream); anywhere else it is reported as absorbed-unexpected",
+    "state comparison is a white-box snapshot of the objects the scenario can name (streams, pools, units, the scenario's "
+    "scheduler / stream / units, the calling unit, used unit-map entries); memory the snapshot does not print is covered "
+    "only by the ledger, the follow-up workload and the retry",
+    "scenarios whose call switches context (main-scheduler replacement on the caller's stream, ABT_self_schedule, "
+    "migration at a yield, create_to / revive_to) count acquisitions of the calling OS thread until the call returns; the "
+    "sequence tie compares such activations up to the switch",
+    "an open entry of KNOWN_FINDINGS.json whose `signature` fnmatch-es C18:<scenario>:k=<k>:<symptom> turns those failing "
+    "runs into one KNOWN-FINDING line (F17: ABT_pool_push_threads); every other failing run is a VIOLATION (at most "
+    "%d replay files per run, all counted in the evidence)" % 12,
 ]
 
 WRAP = ("malloc calloc realloc posix_memalign aligned_alloc free mmap munmap pthread_create pthread_join "
@@ -210,7 +232,9 @@ def model_paths(routines):
             if m.group(1) != "timeout":
                 res[fn_of[names[idx]]].add(seq)
             for flag, what in (("fb=false", "not balanced after an injected failure"), ("ho=false", "output handle wrong"),
-                               ("pu=false", "pre-existing object touched"), ("fault=double", "double release"),
+                               ("pe=false", "pre-existing object touched on an error path"),
+                               ("sr=false", "visible state of a pre-existing object changed and not rolled back on an error path"),
+                               ("fault=double", "double release"),
                                ("fault=release-un", "release of a never-assigned pointer"), ("ret=timeout", "timeout")):
                 if flag in l:
                     verdict[names[idx]][what] += 1
@@ -242,8 +266,17 @@ def classify_names():
     return marked, indirect
 
 
+# callees that switch to another work unit on the calling OS thread: what is recorded after them belongs to whatever
+# runs next, so an activation that reaches one is compared up to that point only (prefix of a model path)
+SWITCHERS = {"ABTI_ythread_suspend_replace_sched", "ABTI_ythread_yield_to", "ABTI_ythread_schedule", "ABTI_ythread_yield",
+             "ABTI_ythread_suspend", "ABTI_ythread_suspend_to", "ABTI_ythread_yield_orphan", "ABTI_ythread_exit",
+             "ABTD_ythread_context_switch", "ABTD_ythread_context_jump", "ABTI_ythread_switch_to_sibling_internal",
+             "ABTI_ythread_switch_to_parent_internal", "ABTI_ythread_switch_to_child_internal"}
+
+
 def activations(r, tab, routines):
-    """yield (routine, [direct non-libc callee names and primitive events in order]) for one traced run"""
+    """yield (routine, [direct non-libc callee names and primitive events in order], cut) for one traced run;
+    cut = number of leading children recorded before the activation (transitively) switched context, None if never"""
     evs = []
     for tok in r.get("events", "").split():
         m = re.match(r"^([+-])([\w]+)(!\w+)?@(\d+)$", tok)
@@ -273,8 +306,12 @@ def activations(r, tab, routines):
             for fr in stack:
                 if fr[1] + 1 == depth:
                     fr[2].append(name)
+            if name in SWITCHERS:
+                for fr in stack:
+                    if fr[3] is None:
+                        fr[3] = len(fr[2])
             if name in routines:
-                stack.append((name, depth, []))
+                stack.append([name, depth, [], None])
             depth += 1
         else:
             depth -= 1
@@ -282,7 +319,7 @@ def activations(r, tab, routines):
                 done.append(stack.pop())
     flush(len(evs))
     # activations cut short by a context switch or a crash are dropped (never closed)
-    return [(n, ch) for n, _, ch in done]
+    return [(n, ch, cut) for n, _, ch, cut in done]
 
 
 def lean_side(broken):
@@ -306,14 +343,15 @@ def tie(res, exe_i, scens, routines, paths):
     tab = symtab(exe_i)
     runs = enumerate_all(exe_i, scens, trace=True)
     checked = collections.Counter()
+    cutn = collections.Counter()
     mism = []
     for sn, rs in sorted(runs.items()):
         for r in rs:
             if "crash" in r:
                 continue
-            for fn, children in activations(r, tab, set(routines)):
+            for fn, children, cut in activations(r, tab, set(routines)):
                 seq = []
-                for c in children:
+                for c in (children if cut is None else children[:cut]):
                     mk = marked(fn, c)
                     if mk:
                         seq.append(c)
@@ -322,9 +360,14 @@ def tie(res, exe_i, scens, routines, paths):
                 want = paths.get(fn, set())
                 norm = {tuple("<indirect>" if x in indirect else x for x in s) for s in want}
                 checked[fn] += 1
-                if tuple(seq) not in norm:
+                if cut is not None:
+                    cutn[fn] += 1
+                    if not any(s[:len(seq)] == tuple(seq) for s in norm):
+                        mism.append({"scenario": sn, "k": r.get("k"), "routine": fn, "observed_prefix": seq})
+                elif tuple(seq) not in norm:
                     mism.append({"scenario": sn, "k": r.get("k"), "routine": fn, "observed": seq})
     res.add_cov(traces_validated_against_impl=sum(checked.values()), tie_activations=dict(checked),
+                tie_activations_compared_up_to_a_context_switch=dict(cutn),
                 tie_routines_exercised=len(checked), tie_routines_translated=len(routines))
     if mism:
         res.sample({"tie_mismatch": mism[0]})
@@ -339,16 +382,17 @@ def broken_routines(b):
     names = set()
     for t in b.get("theorems", []):
         if t and t.startswith("ledger_"):
-            names.add(re.sub(r"^ledger_(fail_balanced|success_exact|handle_null_or_untouched|preexisting_untouched)_", "",
+            names.add(re.sub(r"^ledger_(fail_balanced|success_exact|handle_null_or_untouched|preexisting_untouched_on_error|"
+                             r"preexisting_untouched|no_double_release|state_unchanged_on_error)_", "",
                              t).replace("_partial", ""))
-    try:
-        src = open(os.path.join(C.LEAN, "ArgoVerif", "Proofs", "LedgerRuns.lean")).read().split("\n")
-    except OSError:
-        src = []
     for e in b.get("errors", []):
-        m = re.search(r"Proofs/LedgerRuns\.lean:(\d+):", e)
+        m = re.search(r"Proofs/(LedgerRuns2?)\.lean:(\d+):", e)
         if m:
-            for i in range(min(int(m.group(1)), len(src)) - 1, -1, -1):
+            try:
+                src = open(os.path.join(C.LEAN, "ArgoVerif", "Proofs", m.group(1) + ".lean")).read().split("\n")
+            except OSError:
+                src = []
+            for i in range(min(int(m.group(2)), len(src)) - 1, -1, -1):
                 mm = re.match(r"theorem (?:runs|nonvacuous)_(\w+)", src[i])
                 if mm:
                     names.add(mm.group(1))
@@ -463,7 +507,8 @@ def run(res, tier, broken):
                       {"correspondence": "harness/fi_scen.c trace vs driver ledger paths", "mismatches": mism[:10]},
                       no_input=not bad)
     # the strict statement (false on the unchanged tree: finding C18-A)
-    c18a = [b for b in bad if b[0].startswith("pool_add_sched_userpool")]
+    c18a = [b for b in bad if b[0].startswith(("pool_add_sched", "ps."))]
+    strict_own = ok or any("Props/C18Strict.lean" in l for l in out.split("\n") if "error" in l)
     res.add_cov(strict_statement="discharged" if ok else "fails (ythread_create releases the caller's scheduler; see "
                 "pool_add_sched_userpool)")
     if ok:
@@ -472,6 +517,10 @@ def run(res, tier, broken):
             res.violation("axiom audit of Props/C18Strict failed", {"problems": problems}, no_input=True)
         else:
             res.add_cov(obligations=len(names), discharged=len(names))
+    elif not strict_own:
+        # the module failed only because a module it imports (Proofs/LedgerRuns*) no longer builds: those broken
+        # obligations are tied to failing inputs below
+        res.add_cov(strict_statement="not built: an imported evaluation lemma fails (see broken_obligations)")
     elif not c18a:
         res.violation("Props/C18Strict no longer builds and the enumeration shows no failing call",
                       {"broken": [l for l in out.split("\n") if "error" in l][:5]}, no_input=True)
